@@ -73,7 +73,9 @@ class Mixin(Node):
                 if var:
                     var.parse(scope)
             if not arguments:
-                arguments = [v.value for v in vars if v]
+                # only default values: separated like given arguments are
+                values = [v.value for v in vars if v]
+                arguments = list(zip(values, [' '] * len(values)))
         if not arguments:
             arguments = ''
         Variable(['@arguments', None, arguments]).parse(scope)
